@@ -157,12 +157,74 @@ def header_of(g):
     return R.LMsg(f["version"], f["flags"], f["code"], f["app_id"], f["hbh"], f["e2e"], [])
 
 
+def concurrent_decode(acc, g, rd, b):
+    """Several threads decode at the same time (the receive workers of several connections in one process do): each task
+    decodes its own reference-encoded streams under the deterministic scheduler, with line-level preemption inside the class
+    registry (DiameterAvpLoader) and DiameterAVP.load; every task's result is judged by the single-threaded oracle."""
+    import threading as _th
+    import bromelia.base as B
+    from bvm import vsched
+    r = g.rng
+    for it in range(b["n"]):
+        seed = b["seed"] * 100003 + it
+        k = r.choice([2, 2, 3, 4])
+        streams = []
+        for t in range(k):
+            lmsgs = []
+            for _ in range(r.choice([1, 2, 3])):
+                lm = header_of(g)
+                for _ in range(r.choice([1, 2, 4])):
+                    lm.avps.append(g.avp(r.choice(g.classes), maxdepth=3, with_generic=True).lavp if r.random() < 0.8 else g.generic().lavp)
+                lmsgs.append(lm)
+            streams.append(lmsgs)
+        sched = vsched.Sched(seed=seed, strategy="rw", p=r.choice([0.1, 0.3, 0.6]), max_steps=600_000, wall_s=60)
+        real_lock_type = type(_th.Lock())
+        for holder in (B.DiameterAvpLoader, B.DiameterAVP, B, getattr(B, "loader", None)):
+            if holder is None:
+                continue
+            for name, val in list(vars(holder).items()):
+                if isinstance(val, (real_lock_type, vsched.VLock)):
+                    setattr(holder, name, vsched.VLock(sched, name))
+        codes = [f.__code__ for f in vars(B.DiameterAvpLoader).values() if hasattr(f, "__code__")]
+        ld = vars(B.DiameterAVP)["load"]
+        codes.append(getattr(ld, "__func__", ld).__code__)
+        lp = vsched.LinePreemption(sched, code_objects=codes).__enter__()
+        nv = len(acc.violations)
+        try:
+            def decoder(t):
+                for _ in range(3):
+                    check_stream(acc, g, rd, streams[t], "concurrent")
+            tasks = [sched.spawn("decoder%d" % t, decoder, t) for t in range(k)]
+            ok = sched.run_until(lambda: all(t.done for t in tasks), 20.0, "decoders")
+            acc.counters["concurrent_decode_executions"] += 1
+            acc.counters["preemptions_in_the_registry"] += sched.line_events
+            if sched.deaths:
+                acc.violation("concurrent:decoder-died:%s" % sched.deaths[0]["type"], sched.deaths[0]["traceback"][-300:], {"seed": seed, "tasks": k})
+            elif not ok:
+                acc.violation("concurrent:decoders-never-finish", "%s" % sched.blocked_report(), {"seed": seed, "tasks": k})
+            for v in acc.violations[nv:]:
+                if not v["key"].startswith("concurrent:") and v["key"] != "known-avp-flags-from-class-default":
+                    v["key"] = "concurrent:" + v["key"]
+                    v["witness"]["concurrent"] = {"seed": seed, "tasks": k, "choices": sched.choices[:1500]}
+        except vsched.ControlException as ex:
+            acc.inconclusive.append("%s in concurrent decode (seed %d)" % (ex, seed))
+        finally:
+            lp.__exit__()
+            cov = sched.coverage()
+            sched.shutdown()
+        acc.evaluations += 1
+        acc.sigs.add(harness.sig_hash("concurrent/%d/%s" % (k, cov["schedule"])))
+
+
 def run_batch(b):
     from bromelia.base import DiameterAVP
     acc = harness.Acc()
     g = Gen(b["seed"])
     rd = make_rd(g)
     r = g.rng
+    if b["kind"] == "concurrent":
+        concurrent_decode(acc, g, rd, b)
+        return acc
     if b["kind"] == "streams":
         for it in range(b["n"]):
             k = r.choice([1, 1, 1, 2, 3, 8, r.randrange(1, 9)])
@@ -317,6 +379,8 @@ def main(tier, seed):
     grid = names[seed % 7::7] if q else names
     for i in range(0, len(grid), 8):
         batches.append({"kind": "flaggrid", "classes": grid[i:i + 8], "seed": seed * 7919 + 200 + i})
+    for i in range(6 if q else 64):
+        batches.append({"kind": "concurrent", "n": 25 if q else 300, "seed": seed * 7919 + 400 + i})
     acc = harness.run_workers("checks.c02_decoding", "run_batch", batches, 1500)
     if not q:
         # the repository's own tests as a workload: every stream they load must re-serialise byte-identically
@@ -324,10 +388,11 @@ def main(tier, seed):
     return harness.finish(PROP, tier, seed, "exploration", acc, RULE,
                           ["streams come from the independent reference encoder; padding is zero as RFC 6733 requires",
                            "an AVP with the V flag and Vendor-ID 0 is generated and its fields judged, but not its class",
-                           "Grouped AVPs always carry their mandatory members (a conformant peer sends them)"],
+                           "Grouped AVPs always carry their mandatory members (a conformant peer sends them)",
+                           "concurrent stage: 2..4 tasks decode at once under the deterministic scheduler with line-level preemption inside the class registry and DiameterAVP.load"],
                           t0, extra_cov={"flag_grid": "all consistent flag bytes x %d classes%s" % (
                               len(grid), "" if q else " (exhaustive over the dictionary)")},
-                          require_counters=("load_calls", "redump_checks", "avp_load_calls", "late_class_decodes"))
+                          require_counters=("load_calls", "redump_checks", "avp_load_calls", "late_class_decodes", "concurrent_decode_executions", "preemptions_in_the_registry"))
 
 
 def replay(w):
